@@ -5,6 +5,7 @@ import PokerVerif.Lemmas.TBAgree
 import PokerVerif.Lemmas.TBAgreeRun
 import PokerVerif.Lemmas.TBGidx
 import PokerVerif.Lemmas.TBLeaveList
+import PokerVerif.Lemmas.TBFlags
 import PokerVerif.Props.C07
 import PokerVerif.Props.C01
 /-!
@@ -269,6 +270,50 @@ theorem C03_created_with_players (cfg : Meta) (b : Blind) (js : List Join) (ch :
     rw [heq]
     exact inv3_status _ st (step_inv3 _ _ (create_inv3 cfg b) hd)
   exact run_inv3 _ evs h0 hl
+
+/-- **C03 — … with the same seated-in flag, for every history** (`Lemmas/TBFlags`): in every state reachable from
+`CreateTable` by any history of the 19 event kinds whose recorded seat draws are legal, the seat manager holds every listed
+player on his seat — under his id — *with the table's seated-in flag*.  Sit-ins write both flags (`PlayerJoin` sets the
+table's first; on a table whose books agree the seat manager cannot refuse: `C03_join_sets_both_flags`), arrivals come not
+seated-in on both sides and go to empty seats, a refused batch gives back only what it had just taken, departures only clear
+seats, and nothing else — top-ups, level changes, the gate, opens with their rotation and waiting flags, settlements, the
+continue step's has-chips refresh — touches a flag. -/
+theorem C03_flags_for_every_history (cfg : Meta) (b : Blind) (evs : List Event) (hl : DrawsLegal (create cfg b) evs) :
+    let t := run (create cfg b) evs
+    ∀ (i : Nat) (p : Player), t.players[i]? = some p →
+      ∃ sp, t.sm.seats p.seat = some sp ∧ sp.id = p.id ∧ sp.isIn = p.isIn := by
+  intro t i p hp
+  obtain ⟨⟨hb, ha, _⟩, hf⟩ := run_inv4 _ evs (create_inv4 cfg b) hl
+  have hg := hb.1.1.players i p hp
+  have hr := seatMapGet_range t.seatMap p.seat _ hg
+  rw [hb.2] at hr
+  have hsm : SM.idAt t.sm p.seat = some p.id := by
+    rw [ha.seats p.seat hr.1 hr.2]; exact occ_of_player t.seatMap t.players hb.1.1 i p hp
+  unfold SM.idAt at hsm
+  cases hs : t.sm.seats p.seat with
+  | none => rw [hs] at hsm; cases hsm
+  | some sp =>
+    rw [hs] at hsm
+    have hid : sp.id = p.id := Option.some.inj hsm
+    exact ⟨sp, rfl, hid, hf p (List.mem_of_getElem? hp) sp hs hid⟩
+
+/-- … also for a table created with players, and after every history that follows -/
+theorem C03_flags_created_with_players (cfg : Meta) (b : Blind) (js : List Join) (ch : List Int)
+    (hd : DrawLegal (create cfg b) (.update js [] ch)) (evs : List Event)
+    (hl : DrawsLegal (createWith cfg b js ch).1 evs) :
+    FlagInv (run (createWith cfg b js ch).1 evs) := by
+  obtain ⟨st, heq⟩ := createWith_eq cfg b js ch
+  have h1 := step_inv4 _ _ (create_inv4 cfg b) hd
+  have h0 : Inv4 (createWith cfg b js ch).1 := by
+    rw [heq]
+    exact ⟨inv3_status _ st h1.1, h1.2⟩
+  exact (run_inv4 _ evs h0 hl).2
+
+-- non-vacuity: two players reserve, one of them sits in — both sides say so
+def exFlagsTable : State := run (create exCfg exBlind) (exCycle.take 3)
+example : exFlagsTable.players.map (fun p => (p.id, p.seat, p.isIn)) = [(1, 0, true), (2, 2, false)] ∧
+    (exFlagsTable.sm.seats 0).map (fun sp => (sp.id, sp.isIn)) = some (1, true) ∧
+    (exFlagsTable.sm.seats 2).map (fun sp => (sp.id, sp.isIn)) = some (2, false) := by decide
 
 /-- … spelled out: no two listed players share a seat or an id, every listed player sits on a seat of the table whose
 seat-map entry names him, and the seat manager's occupant of every seat of the table is the table's -/
